@@ -20,7 +20,7 @@ save)
     (cd $M && go test -vet=off -count=1 -timeout 90s ./... 2>&1 | grep -v "^ok\|no test files" | head -4 | cut -c1-220)
     (cd $M && go test -vet=off -count=1 -timeout 90s ./... >/dev/null 2>&1) && suite=green || suite=RED
   else suite=untested; fi
-  out=$(/verif/bin/vcheck -rule $rule -repo $M 2>&1 | grep -E "^(violation|undecided)" | grep -F -- "$expect")
+  out=$(${VCHECK:-/verif/bin/vcheck} -rule $rule -repo $M 2>&1 | grep -E "^(violation|undecided)" | grep -F -- "$expect")
   hit=false; [ -n "$out" ] && hit=true
   printf '{"rule": "%s", "expect_key": "%s", "benign": %s, "suite": "%s"}\n' "$rule" "$expect" $benign $suite > $d/meta.json
   echo "mutant $name: suite=$suite rule-hit=$hit benign=$benign"; echo "$out" | head -3
